@@ -98,8 +98,13 @@ def run(run):
     completeness_instance(run, 0)
     if run.tier != "quick":
         completeness_instance(run, 1)
+    # "holds equally from a compressed description": the compressed route yields the SAME keys (terms)
+    # as direct compilation on a few shapes around the encoder's size-class boundaries (full sweep: C15)
+    from checks.c15 import routes
+    routes(run, only=[(6, 1, 0, 0, 1), (66, 3, 0, 0, 1), (72, 3, 0, 0, 1), (90, 15, 0, 0, 1), (96, 16, 0, 0, 1),
+                      (8, 2, 1, 1, 1)], prop="C01")
     run.outside.append("all sequences of components, proving at real sizes, the negligible degenerate-blinder event; "
-                       "compressed / serialized routes reduce to C15 / C16; in the quick tier the prover's "
+                       "compressed / serialized routes beyond the listed shapes reduce to C15 / C16; in the quick tier the prover's "
                        "leading-coefficient identities may stay undecided (counted as optional_undecided)")
 
 
